@@ -21,7 +21,7 @@ func genC10(g *Gen, tier string) *Program {
 	p := &Program{Prop: "C10"}
 	c := &p.Cfg
 	baseCfg(g, c)
-	c.Stack = pick(g, "plain", "cached", "test")
+	c.Stack = pick(g, "plain", "plain", "cached", "cached", "test", "test", "both")
 	if c.Stack == "test" {
 		c.IntervalNs = 0
 		g.schedule(c, 0)
